@@ -11,7 +11,7 @@ if not os.path.exists('bin/govc'):
     subprocess.run(['go', 'build', '-o', V + '/bin/govc', '.'], cwd=V + '/govc', env=env, check=True)
 t0 = time.time()
 # properties decided by a bounded stand-in alone (no function of theirs is under contract: see DESIGN.md)
-BOUNDED_ONLY = {'C19'}
+BOUNDED_ONLY = set()
 claimed = {}
 try:
     for c in json.load(open(os.path.join(V, 'MANIFEST.json')))['checks']:
